@@ -706,8 +706,8 @@ def run(chk):
     post_ops = ["parent", "parent(2)", "parent(0)", "flatten", "flatten(2)", "keys", "sort", "reverse", "unique", "to_entries", "toEntries",
                 "split_doc", "splitDoc", "path", "pivot", "shuffle", "env(HOME)", "strenv(HOME)", "$x", "sort_by(.a)", "sortKeys(.)", "with(.a; .b)",
                 "select(.a)", "map(.a)", "split(\",\")", "group_by(.a)", "unique_by(.a)", "pick([\"a\"])", "explode(.)", "load(\"f\")", "eval(.a)",
-                "delpaths([])", "map_values(.)", "filter(.a)", "omit([\"a\"])", ".a", ".\"a b\"", "(.a)", "[.a]", "{\"k\": 1}"]
-    suffixes = [".x", "[0]", "[]", ".x?", "[0]?", ".x.y", ".x[0]", "[0].x", "[\"k\"]", ".[0]", ".\"x y\""]
+                "delpaths([])", "map_values(.)", "filter(.a)", "omit([\"a\"])", ".a", ".\"a-b\"", "(.a)", "[.a]", "{\"k\": 1}"]
+    suffixes = [".x", "[0]", "[]", ".x?", "[0]?", ".x.y", ".x[0]", "[0].x", "[\"k\"]", ".[0]", ".\"x-y\""]
     pair_cases = []
     for op in post_ops:
         for suf in suffixes:
